@@ -392,6 +392,31 @@ func oracle(w *out.W, c *tcase, r *result) {
 			}
 			return trunc(strings.ReplaceAll(strings.Join(q, "; "), "\n", " "), 700)
 		}
+		// every diagnostic sits on a statement that removes the object it names ("on the statement that causes it")
+		for _, d := range fo.diags {
+			okPos := false
+			for j := 0; j < nst && !okPos; j++ {
+				if !accept(j)[d.pos] {
+					continue
+				}
+				for _, t := range st[j] {
+					b := st[j+1].find(t.name)
+					if d.code == "DS102" && b < 0 && contains(d.names, t.name) {
+						okPos = true
+					}
+					if d.code == "DS103" {
+						for _, cn := range colNames(t, false) {
+							if contains(d.names, cn) && (b < 0 || st[j+1][b].col(cn) < 0) {
+								okPos = true
+							}
+						}
+					}
+				}
+			}
+			if !okPos {
+				w.Violation(c.id, "spurious-diagnostic", fmt.Sprintf("file %s: %v is not on a statement that removes what it names; sql: %s", f.name, d, sql()))
+			}
+		}
 		required := false
 		// completeness: tables
 		for _, t := range pre {
@@ -549,7 +574,7 @@ func uniq(l []string) []string {
 // ---------------------------------------------------------------- main
 
 func main() {
-	mode := flag.String("mode", "rand", "rand|exh|api")
+	mode := flag.String("mode", "rand", "rand|exh")
 	tier := flag.String("tier", "quick", "quick|thorough")
 	outDir := flag.String("out", "", "output directory")
 	flag.Parse()
@@ -559,10 +584,6 @@ func main() {
 	}
 	w := out.New(*outDir)
 	defer w.Close()
-	if *mode == "api" {
-		runAPI(w, *tier)
-		return
-	}
 	tmpRoot := os.Getenv("TMPDIR")
 	if tmpRoot == "" {
 		tmpRoot = os.TempDir()
